@@ -3,6 +3,7 @@ import re
 
 from .. import builtins as B
 from .. import rettags as RT
+from ..analysis import strip_through
 from ..analysis import (Branches, CallGraph, Origins, cfg_cycles, edge_dominates, fmt_terms, reach_avoiding,
                         term_mentions)
 from ..decision import Undecided
@@ -210,7 +211,9 @@ def fn_join(ctx, lib, nm, b):
     for c in lib.closures_of(b.deff):
         co = Origins(c, lib)
         r = co.of_local(0)
-        if ms(r, Call("std::option::Option::<T>::map", Each(view("string", ("param", 2))), ANY)) or ms(r, view("string", ("param", 2))):
+        elem_str = view("string", ("param", 2))
+        if ms(r, Call("std::option::Option::<T>::map", Each(elem_str), ANY)) or ms(r, elem_str) or \
+                (r and all(m(strip_through(t), elem_str) or m(t, Agg("std::option::Option::Some", Each(elem_str))) for t in r)):
             clo_ok = True
     C(ctx, nm, "value", ok and clo_ok, "String(elements of args[1], each as its own string, in order, joined with args[0])", b)
 
